@@ -378,6 +378,10 @@ def commitTruth (H : List Entry) : List Step → List Nat → Nat → Nat → Op
   | [], _, _, _ => none
   | _, [], _, _ => none
   | s :: rest, hl :: hls, known, k =>
+    -- (an image whose store *announces* a last index it does not hold is an artefact of InmemStore's
+    -- low / high bookkeeping after a DeleteRange above a hole - a crash image of a store that cannot
+    -- survive a crash; a durable store reports the last key it holds - and is not judged)
+    if s.post.dead ∧ s.post.dur.high ≠ 0 ∧ (getLog s.post.dur.log s.post.dur.high).isNone then none else
     if s.post.dead then some (k, "server-cannot-restart-from-its-durable-state") else
     let fresh := s.post.panic || (match s.ev with | .restart => true | .damagedRestart => true | _ => false)
     let c := s.post.vol.commit
@@ -467,7 +471,15 @@ def snapshotTruth (H : List Entry) : List Step → List Nat → Nat → Option (
   | s :: rest, hl :: hls, k =>
     let isSnap := match s.ev with | .snapshot _ _ => true | _ => false
     let fresh := s.post.dur.snaps.filter (fun x => !(s.pre.dur.snaps.any (fun y => y.idx == x.idx && y.term == x.term)))
+    -- a snapshot received from a leader (InstallSnapshot) that ends up in the store holds the committed
+    -- history of its index too - in particular a transfer that ended early must leave nothing behind
+    let isInstall := match s.ev with | .install _ _ _ => true | _ => false
     let bad : Option String :=
+      if isInstall && !s.post.dead then
+        fresh.findSome? (fun x =>
+          if x.idx ≤ hl ∧ (getLog H x.idx).map (·.term) == some x.term ∧ x.data != cmdsUpTo H x.idx then
+            some "installed-snapshot-content-is-not-the-committed-history" else none)
+      else
       if !isSnap || s.post.dead then none else
       fresh.findSome? (fun x =>
         if x.idx > hl then some "snapshot-beyond-the-committed-history"
